@@ -140,6 +140,36 @@ def _roundtrip_semantic(model: Model, ex: FuncInfo, pu: FuncInfo):
                 % (out, o.attrs["__dict__"].data)
         if feed:
             return "the refill leaves %r unconsumed" % (feed,)
+        # second probe: instances of subclasses of list / dict (an OrderedDict, `class Bag(list)`) are containers AND objects with an
+        # instance dictionary; whichever view the traversals take, they must take the same one
+        from ..domains.kinds import HeapList, HeapDict
+        s0, s1, s2, s3 = (Tok("S%d" % i, is_tensor=True) for i in range(4))
+        bag = HeapList([s0, 5])
+        bag.xv_dict = ADict({"tag": 1, "w": s1}, "Bag.__dict__")
+        od = HeapDict({"q": s2}, "OrderedDict")
+        od.xv_dict = ADict({"name": "cfg", "v": s3}, "OrderedDict.__dict__")
+        root2 = [bag, od]
+        got2 = run(ex, [root2])
+        if not isinstance(got2, list) or len({id(x) for x in got2}) != len(got2) or not all(any(x is y for y in (s0, s1, s2, s3)) for x in got2):
+            return "extraction of [<list subclass [S0, 5] with __dict__ {tag: 1, w: S1}>, <dict subclass {q: S2} with __dict__ {name: .., v: S3}>] gives %r" % (got2,)
+        new2 = [Tok("M%d" % i, is_tensor=True) for i in range(len(got2))]
+        feed2 = list(new2)
+        out2 = run(pu, [root2, feed2])
+        if out2 is None:
+            out2 = root2
+        slots = {id(s0): lambda: bag[0], id(s1): lambda: bag.xv_dict.data["w"], id(s2): lambda: od.data["q"], id(s3): lambda: od.xv_dict.data["v"]}
+        try:
+            for tok_ in (s0, s1, s2, s3):
+                now = slots[id(tok_)]()
+                js = [j for j, g in enumerate(got2) if g is tok_]
+                want = new2[js[0]] if js else tok_
+                if now is not want:
+                    return "containers that are both a list / dict and an object with an instance dictionary (subclasses of list / dict, OrderedDict): " \
+                           "extraction lists %r, the refill leaves %r where %r was (expected %r): the two traversals test the kinds in a different order" % (got2, now, tok_, want)
+        except (KeyError, IndexError, AttributeError, TypeError):
+            return "refilling destroys a subclass-of-list / subclass-of-dict container: %r" % (out2,)
+        if feed2:
+            return "the refill of a structure with subclass containers leaves %r unconsumed (extraction listed %r)" % (feed2, got2)
     except Unsupported:
         return None
     except Raised as e:
